@@ -519,6 +519,12 @@ func Main(run *hx.Run, model *hx.Model, prop string, corruption int, report func
 		run.Count("alloc:" + strings.Fields(script[0])[8])
 		if len(fs) > 0 {
 			first := fs[0]
+			for _, f := range fs {
+				if f.Kind == "oracle" {
+					first = f
+					break
+				}
+			}
 			small := hx.Shrink(script, 1, func(sc []string) bool {
 				r2 := RunCase(run, model, name, sc)
 				for _, f := range r2.Findings {
